@@ -13,3 +13,15 @@ coqrun.write_coqproject()
 PY
 timeout 3000 make -j16 --no-print-directory >/dev/null 2>../build/setup_make.log || { tail -40 ../build/setup_make.log; exit 1; }
 echo "setup ok: $(ls theories/*.vo props/*.vo gen/*.vo 2>/dev/null | wc -l) compiled files"
+# global hygiene scan: nothing Admitted / no axioms declared anywhere in the development
+cd ..
+/venv/bin/python - <<'PY'
+import sys
+sys.path.insert(0, "harness")
+from common import coqrun
+h = coqrun.hygiene()
+if h:
+    print("hygiene scan failed:", h)
+    sys.exit(1)
+print("hygiene ok")
+PY
